@@ -209,8 +209,33 @@ def run_worker(case, ctx):
     ctx.extra["fault_runs"] = len(seen)
 
 
+def run_real(case, ctx):
+    """reality tier (E4): real worker processes; lifecycle facts observed through multiprocessing Events"""
+    from .. import reality
+    from ..common import Inconclusive
+    name = "FactoryFunctorPool" if case["pool"] == "factory" else "FunctorPool"
+    r = reality.run_real(case)
+    ctx.label("real-processes")
+    ctx.nontrivial = True
+    if r["verdict"] != "ok" or r.get("exc"):
+        # a hang or a wrong value is C02/C03's verdict; here only lifecycles of runs that left the pool are judged
+        if r["verdict"] == "inconclusive":
+            raise Inconclusive("real run inconclusive")
+        return
+    if r.get("not_ready_after_until_all_ready"):
+        ctx.fail("%s/real-processes/until_all_ready-returned-before-begin-completed" % name, "%d workers had not completed begin()" % r["not_ready_after_until_all_ready"])
+    if r.get("alive_after_exit"):
+        ctx.fail("%s/real-processes/worker-still-running-when-pool-context-left" % name,
+                 "%d of %d worker processes were still alive when the with-block had been left" % (r["alive_after_exit"], r.get("workers_created", 0)))
+    if r.get("end_not_done_after_exit"):
+        ctx.fail("%s/real-processes/end-not-completed-when-pool-context-left" % name,
+                 "%d started workers had not completed end() when the with-block had been left" % r["end_not_done_after_exit"])
+
+
 def run_case(case, ctx):
-    if case["kind"] == "worker":
+    if case.get("real"):
+        run_real(case, ctx)
+    elif case["kind"] == "worker":
         run_worker(case, ctx)
     else:
         from . import c04_sched
@@ -227,6 +252,9 @@ def strategies(tier):
         "rq_max": st.sampled_from([0, 0, 1, 2]),
     })
     parts = [("worker-level-fault-enumeration", worker, 300000 if big else 6000)]
+    from . import poolcases as PC
+    realq = PC.real_strategy(PC.pool_strategy(kinds=("factory",), quotas=(1, 2, 3), max_calls=3, min_calls=1, max_n=8))
+    parts.append(("real-processes-lifecycle", realq, 300 if big else 14, {"shrink": False}))
     try:
         from . import c04_sched
         parts += c04_sched.strategies(tier)
